@@ -280,6 +280,22 @@ Example resolve_cycles_fixed :
   /\ exists d, members [cyc_a; cyc_b] cyc_a = Ok d.
 Proof. repeat split; try (vm_compute; reflexivity). eexists. vm_compute. reflexivity. Qed.
 
+(* a rho shape: the tail c.k -> d.z -> a.x leads INTO the cycle a.x -> a.x that none of its nodes is part of; the walk
+   that starts at d.z stops at the cycle's node (only a visited LIST, not the start node alone, guarantees this) *)
+Definition rho_c : table_def :=
+  mkTable "c" None
+    [mkCol "id" (TSimple Integer) false None None None None None None; mkCol "k" (TSimple Integer) true None None None None None None]
+    [CPrimaryKey false ["id"]; CForeignKey None ["k"] "d" ["z"] None None].
+Definition rho_d : table_def :=
+  mkTable "d" None
+    [mkCol "id" (TSimple Integer) false None None None None None None; mkCol "z" (TSimple Integer) true None None None None None None]
+    [CPrimaryKey false ["id"]; CForeignKey None ["z"] "a" ["x"] None None].
+Example resolve_rho :
+  resolve_fk_target (resolve_fuel [rho_c; rho_d; cyc_self]) [rho_c; rho_d; cyc_self] "d" ["z"] = Some ("a", ["x"])
+  /\ known_C16_fk_cycle [rho_c; rho_d; cyc_self] rho_c = true
+  /\ exists d, members [rho_c; rho_d; cyc_self] rho_c = Ok d.
+Proof. split; [vm_compute; reflexivity|]. split; [vm_compute; reflexivity|]. eexists. vm_compute. reflexivity. Qed.
+
 (* ---------- refs_exist ---------- *)
 Lemma table_exists_In s name : table_exists s name = true <-> exists t, In t s /\ t_name t = name.
 Proof.
